@@ -3,7 +3,8 @@
    stated sign contracts; descent / likelihood improvement is sampled, not proved. *)
 From Coq Require Import List Arith Bool Ring ZArith.
 From PV Require Import Base.Index Base.Sum Np.Array Model.Sparse Model.Repr Model.C01Conv Model.C14Nvecs Model.C11Apr Model.C11Sparse
-                       Proofs.C14Sums Proofs.C11Mass Proofs.C11Proofs Proofs.C11Pairing.
+                       Model.C11LogLik Model.C11Rows Proofs.C14Sums Proofs.C11Mass Proofs.C11Proofs Proofs.C11Pairing Proofs.C11LogLik
+                       Proofs.C11RowsProofs.
 Import ListNotations.
 
 Section C11_ring.
@@ -61,7 +62,34 @@ Theorem C11_phi_sparse : forall (S : sparse V) (n : nat) (st : state) (a r : nat
   mget v0 (calc_phi_sp_code v0 v1 vadd vmul vdivmax S n st) a r =
   mget v0 (calc_phi v0 v1 vadd vmul vdivmax (full v0 S) n st) a r.
 Proof. exact (calc_phi_sp_code_full V v0 v1 vadd vmul vsub vopp Vring vdivmax isz). Qed.
+
+(* tt_loglikelihood, sparse branch (Model/C11LogLik.v: rows of the factors gathered at the STORED subscripts, multiplied mode by mode in
+   place, summed over the components): the sum over the stored entries of phi(vals[k], rowsum[k]) equals the sum over ALL subscripts of
+   phi(data, model) on the tensor the holder denotes — any stored order, shape, rank, ring; phi 0 m = 0 is the docstring's
+   "0 * log(x) = 0".  [isz] is arbitrary: with isz := fun _ => false the statement covers holders with explicitly stored zeros. *)
+Theorem C11_loglik_sparse_terms : forall (phi : V -> V -> V) (S : sparse V) (K : ktensor V),
+  wf_sp isz S -> kshape K = sshape S ->
+  (forall r, r < krank K -> nth r (kweights K) v0 = v1) ->
+  (forall m, phi v0 m = v0) ->
+  loglik_sp_terms v0 v1 vadd vmul phi S K =
+  sum_over v0 vadd (allsubs (sshape S)) (fun i => phi (den_sp v0 S i) (den_k v0 v1 vadd vmul K i)).
+Proof. exact (loglik_sp_terms_correct V v0 v1 vadd vmul vsub vopp Vring isz). Qed.
+
+(* ... and the whole returned value: in the state Model.normalize(weight_factor=0, normtype=1) leaves (unit weights; each component has
+   unit column sums in the modes > 0 or a zero mode-0 column) the sparse branch returns sum_s phi(x_s, m_s) - sum_s m_s *)
+Theorem C11_loglik_sparse : forall (phi : V -> V -> V) (S : sparse V) (w : list V) (A0 : list (list V)) (rest : list (list (list V))),
+  let K := mkK w (A0 :: rest) in
+  wf_sp isz S -> kshape K = sshape S ->
+  Forall (fun row => length row = length w) A0 ->
+  (forall r, r < length w ->
+     nth r w v0 = v1 /\
+     ((forall A, In A rest -> colsum V v0 vadd A r = v1) \/ colsum V v0 vadd A0 r = v0)) ->
+  (forall m, phi v0 m = v0) ->
+  loglik_sp v0 v1 vadd vmul vsub phi S K = loglik_spec v0 v1 vadd vmul vsub phi (den_sp v0 S) (sshape S) K.
+Proof. exact (loglik_sp_correct V v0 v1 vadd vmul vsub vopp Vring isz). Qed.
 End C11_ring.
+Print Assumptions C11_loglik_sparse_terms.
+Print Assumptions C11_loglik_sparse.
 Print Assumptions C11_mass_identity.
 Print Assumptions C11_mass_factor0.
 Print Assumptions C11_mass_factor0_dead.
@@ -125,7 +153,49 @@ Proof.
   exact (conj (proj_nonneg V v0 vadd vmul (vle v0) le_refl vgt0 gt0_nonneg m d alpha)
               (proj_any V v0 (vle v0) le_refl vgt0 gt0_nonneg cand)).
 Qed.
+
+(* PDNR and PQNR: the outer-loop state machine of Model/C11Rows.v (zero-row patch, normalise, per mode: redistribute, per row: zero the
+   row over an empty data slice or run the projected inner loop, write back, normalise; KKT / inner-iteration records; convergence
+   test incl. the PDNR-inexact row tolerance).  For EVERY gradient, search direction (damped Newton, L-BFGS), step length, fallback
+   decision and multiplicative factor (oracles that see the state, the position and the row's history), every data tensor and every
+   non-negative guess: weights and factors are non-negative at the end, there is one non-negative KKT entry and one inner-iteration
+   entry per outer iteration performed, at least one and at most maxiters, fewer only when the convergence flag is set.
+   prestep = false: PDNR;  prestep = true (and inexact = false): PQNR. *)
+Variables (vleb : V -> V -> bool) (isz : V -> bool) (vdiv100 : V -> V) (tiny : V).
+Hypothesis tiny_nonneg : vle v0 tiny.
+Variables (inexact prestep : bool).
+Variables (grad dir phi : @state V -> ctx -> list (list V) -> list V -> list V).
+Variable alpha : @state V -> ctx -> list (list V) -> list V -> V.
+Variable fallback : @state V -> ctx -> list (list V) -> list V -> bool.
+Theorem C11_rows_nonneg : forall (X : dense V) (K : ktensor V) (maxiters : nat),
+  Forall (vle v0) (kweights K) -> Forall (Forall (Forall (vle v0))) (kfactors K) ->
+  match cp_apr_rows v0 v1 vadd vmul vscale vabs vmin vmax vgt0 vltb vleb isz vdiv100 stoptol tiny maxinner inexact prestep
+                    grad dir phi alpha fallback X K maxiters with
+  | (st, kkts, inners) =>
+      Forall (vle v0) (sw st) /\ Forall (Forall (Forall (vle v0))) (sA st) /\
+      Forall (vle v0) kkts /\ length kkts <= maxiters /\ (1 <= maxiters -> 1 <= length kkts) /\ length inners = length kkts /\
+      (length kkts < maxiters -> sconv st = true)
+  end.
+Proof.
+  exact (rows_nonneg V v0 v1 vadd vmul (vle v0) le_refl le_0_1 add_nonneg mul_nonneg vscale vabs vmin vmax vgt0 vltb vleb isz vdiv100
+           scale_nonneg abs_nonneg max_nonneg gt0_nonneg stoptol tiny tiny_nonneg maxinner inexact prestep grad dir phi alpha fallback).
+Qed.
+
+(* ... and every nInnerIters entry (the sum over the rows solved of the LAST inner index) is at most
+   (sum of the mode sizes) * (max(maxinneriters, 2) - 1) — the bound the harness checks on observed PDNR / PQNR runs *)
+Theorem C11_rows_inner_bound : forall (X : dense V) (K : ktensor V) (maxiters : nat),
+  Forall (vle v0) (kweights K) -> Forall (Forall (Forall (vle v0))) (kfactors K) ->
+  match cp_apr_rows v0 v1 vadd vmul vscale vabs vmin vmax vgt0 vltb vleb isz vdiv100 stoptol tiny maxinner inexact prestep
+                    grad dir phi alpha fallback X K maxiters with
+  | (_, _, inners) => Forall (fun c => c <= list_sum (kshape K) * Nat.pred (Nat.max maxinner 2)) inners
+  end.
+Proof.
+  exact (rows_inner_bound V v0 v1 vadd vmul (vle v0) le_refl le_0_1 add_nonneg mul_nonneg vscale vabs vmin vmax vgt0 vltb vleb isz vdiv100
+           scale_nonneg abs_nonneg max_nonneg gt0_nonneg stoptol tiny tiny_nonneg maxinner inexact prestep grad dir phi alpha fallback).
+Qed.
 End C11_order.
+Print Assumptions C11_rows_nonneg.
+Print Assumptions C11_rows_inner_bound.
 Print Assumptions C11_mu_nonneg.
 Print Assumptions C11_bookkeeping.
 Print Assumptions C11_proj_nonneg.
@@ -166,3 +236,23 @@ Example C11_example_phi_sparse :
   calc_phi_sp_code 0%Z 1%Z Z.add Z.mul dm S 1 st = [[4; 4]; [3; 12]; [21; 8]]%Z /\
   calc_phi_sp_code 0%Z 1%Z Z.add Z.mul dm S 2 st = [[8; 10]; [15; 9]]%Z.
 Proof. exact calc_phi_sp_ex_value. Qed.
+Example C11_example_loglik_sparse :
+  let S := mkSp [2; 3; 2] [[1; 2; 0]; [0; 0; 0]; [1; 1; 1]; [1; 2; 1]; [0; 1; 1]] [18; 8; 0; 27; 6]%Z in
+  let K := mkK [1; 1]%Z [[[1; 2]; [3; 1]]; [[1; 1]; [2; 0]; [1; 3]]; [[2; 1]; [1; 2]]]%Z in
+  let phi := fun x m : Z => (x * (m + 7))%Z in
+  loglik_sp_terms 0%Z 1%Z Z.add Z.mul phi S K = 862%Z /\
+  sum_over 0%Z Z.add (allsubs (sshape S)) (fun i => phi (den_sp 0%Z S i) (den_k 0%Z 1%Z Z.add Z.mul K i)) = 862%Z /\
+  map (fun e => ll_rowsum 0%Z 1%Z Z.add Z.mul (kfactors K) (krank K) (fst e)) (entries S) = [9; 4; 6; 9; 2]%Z.
+Proof. exact loglik_sp_ex. Qed.
+Example C11_example_rows :
+  let X := mkDense [3; 2] [2; 0; 1; 3; 0; 0]%Z in
+  let K := mkK [1; 2]%Z [[[1; 2]; [0; 0]; [2; 1]]; [[1; 1]; [3; 0]]]%Z in
+  let zgrad := fun (st : @state Z) (c : ctx) (h : list (list Z)) (m : list Z) => map (fun x => x - 2 - Z.of_nat (snd c))%Z m in
+  let zdir := fun (st : @state Z) (c : ctx) (h : list (list Z)) (m : list Z) => map (fun x => Z.of_nat (length h) - x)%Z m in
+  let zphi := fun (st : @state Z) (c : ctx) (h : list (list Z)) (m : list Z) => map (fun x => 3 - x)%Z m in
+  let zalpha := fun (st : @state Z) (c : ctx) (h : list (list Z)) (m : list Z) => 1%Z in
+  let zfb := fun (st : @state Z) (c : ctx) (h : list (list Z)) (m : list Z) => Nat.eqb (snd c) 1 in
+  (let '(st, k, i) := cp_apr_rows 0%Z 1%Z Z.add Z.mul (fun t a => a) Z.abs Z.min Z.max (Z.ltb 0) Z.ltb Z.leb (Z.eqb 0) (fun x => x / 100)%Z
+                        1%Z 1%Z 3 true false zgrad zdir zphi zalpha zfb X K 4 in (sw st, sA st, k, i, sconv st)) =
+    ([64; 64]%Z, [[[2; 2]; [0; 0]; [2; 2]]; [[2; 2]; [2; 2]]]%Z, [30; 6; 2; 6]%Z, [8; 4; 8; 8], false).
+Proof. exact rows_ex_props. Qed.
